@@ -873,6 +873,22 @@ fn gen_c12(tier: &Tier, rng: &mut Rng, w: usize, nw: usize, out: &mut Vec<Case>)
                 );
             }
         }
+        // fields of 9..40 bytes whose *leading* group is non-zero (values 16^8 .. 16^39: beyond 32 and beyond
+        // 64 bits), alone and with a small low part: must be rejected, never taken modulo a machine word
+        for k in 9..=40usize {
+            let mut t = vec![0xf1u8];
+            t.extend(vec![0x80u8; k - 2]);
+            t.push(0x00);
+            push_list(t, out);
+            let mut u = vec![0x81u8];
+            u.extend(vec![0x80u8; k - 3]);
+            u.extend_from_slice(&[0x81, 0x05]);
+            push_list(u, out);
+            let mut z = vec![0xf0u8, 0x81];
+            z.extend(vec![0x80u8; k - 3]);
+            z.push(0x03);
+            push_list(z, out);
+        }
         // very long fields: a list field and an octet field with many leading zero-nibble bytes
         for pad in LONG_FIELD_PADS {
             let mut t = vec![0xf0u8];
@@ -1033,6 +1049,22 @@ fn gen_c10(tier: &Tier, rng: &mut Rng, _w: usize, nw: usize, out: &mut Vec<Case>
                 Case::new("e2e-64k", vec![format!("sml {} inf nbnfnpnbnfnpnbnbnb {} {} {} {} {} {} {}", kind, tok(&g), tok(&spec::frame(&x)), tok(&g), tok(&spec::frame(&x)), tok(&g), tok(&spec::frame(&x)), tok(&tail))])
                     .with_aux(vec![[expect.clone(), expect.clone(), expect.clone()].join("#"), tail.len().to_string()])
                     .impl_only(false),
+            );
+        }
+    }
+    // an `io::Read` that reports `Interrupted` many times in a row in the middle of a frame: invisible
+    if _w == 7 % nw {
+        for n in [255usize, 256, 257, 300, 1000, 65_536] {
+            let f1 = gfile(rng, 2, 3);
+            let f2 = gfile(rng, 2, 3);
+            let (x1, x2) = (encode_file(rng, &f1, true), encode_file(rng, &f2, true));
+            let fr1 = spec::frame(&x1);
+            let cut = 17.min(fr1.len() - 1);
+            let storm = vec!["I"; n].join(" ");
+            let expect = [format!("0|{}|{}|{}", hex(&x1), show_gfile(&f1), show_gevents(&f1).join(";")), format!("0|{}|{}|{}", hex(&x2), show_gfile(&f2), show_gevents(&f2).join(";"))].join("#");
+            out.push(
+                Case::new("e2e-storm", vec![format!("sml io inf nfnpnbnbnb {} {} {} {}", tok(&fr1[..cut]), storm, tok(&fr1[cut..]), tok(&spec::frame(&x2)))])
+                    .with_aux(vec![expect, "0".to_string()]),
             );
         }
     }
